@@ -8,7 +8,7 @@ def one(name):
     d = os.path.join(sd, name)
     if not os.path.isfile(os.path.join(d, "patch.diff")):
         return None
-    out = subprocess.run([os.path.join(here, "tools/eval_seeded.sh"), d], capture_output=True, text=True).stdout
+    out = subprocess.run([os.path.join(here, "tools/eval_seeded.sh"), d], capture_output=True, text=True, errors="replace").stdout
     g = lambda pat: (re.search(pat, out) or [None, ""])[1].strip()
     notes = open(os.path.join(d, "notes.md")).read() if os.path.exists(os.path.join(d, "notes.md")) else ""
     title = next((l.lstrip("# ").strip() for l in notes.splitlines() if l.strip()), name)
